@@ -589,6 +589,12 @@ class _Linalg:
         raise Unsupported(f"np.linalg.inv of symbolic {m.shape} matrix (needs an assumed contract)")
 
     @staticmethod
+    def solve(a, b):
+        """np.linalg.solve(a, b): the x with a @ x == b, i.e. inv(a) @ b for a square non-singular a"""
+        _used("np.linalg.solve(a, b) = inv(a) @ b")
+        return _Linalg.inv(a) @ _arr(b)
+
+    @staticmethod
     def eig(m):
         h = _HOOKS.get("linalg.eig")
         if h:
